@@ -129,9 +129,10 @@ def build(scn, status_map=None, scale=1.0):
                 G.nodes[u][lab] = float(t["nw"][u - 1])
             attrs["weight_label"] = lab
         elif scn["wmode"] == "function":
-            def rf(G_, node, _t=t, **kw):
+            def rf(G_, node, _t=t, who=None, **kw):
                 calls.append(("spont", node))
-                return float(_t["nw"][node - 1])
+                # spontaneous rate functions are called with spont_kwargs (who="spont" when the caller passes KW)
+                return float(_t["nw"][node - 1]) if who in (None, "spont") else float(_t["nw"][node - 1]) * 2.0 + 1.0
             attrs["rate_function"] = rf
         H.add_edge(sm(t["from"]), sm(t["to"]), **attrs)
     for j, t in enumerate(scn["induced"]):
@@ -142,9 +143,10 @@ def build(scn, status_map=None, scale=1.0):
                 G.edges[u, v][lab] = float(t["ew"][u - 1][v - 1])
             attrs["weight_label"] = lab
         elif scn["wmode"] == "function":
-            def rf(G_, source, target, _t=t, **kw):
+            def rf(G_, source, target, _t=t, who=None, **kw):
                 calls.append(("induced", source, target))
-                return float(_t["ew"][source - 1][target - 1])
+                # induced rate functions are called with nbr_kwargs
+                return float(_t["ew"][source - 1][target - 1]) if who in (None, "nbr") else float(_t["ew"][source - 1][target - 1]) * 2.0 + 1.0
             attrs["rate_function"] = rf
         J.add_edge((sm(t["a"]), sm(t["b"])), (sm(t["a"]), sm(t["c"])), **attrs)
     return G, H, J, calls
@@ -168,13 +170,15 @@ def run_scenario(task):
     rs = [sm(s) for s in scn["statuses"]]
     tmin = task.get("tmin", 0)
     tmax = tmin + horizon + 0.5
+    # user keyword arguments for the two families of rate functions (every other scenario of the function mode)
+    KW = dict(spont_kwargs={"who": "spont"}, nbr_kwargs={"who": "nbr"}) if (scn["wmode"] == "function" and i % 2 == 0) else {}
 
     def fn_full():
-        sim = EoN.Gillespie_simple_contagion(G, H, J, dict(IC), rs, tmin=tmin, tmax=tmax, return_full_data=True)
+        sim = EoN.Gillespie_simple_contagion(G, H, J, dict(IC), rs, tmin=tmin, tmax=tmax, return_full_data=True, **KW)
         return observe.full_data_observation(sim, nodes)
 
     def fn_arr():
-        return [list(map(float, a)) for a in EoN.Gillespie_simple_contagion(G, H, J, dict(IC), rs, tmin=tmin, tmax=tmax)]
+        return [list(map(float, a)) for a in EoN.Gillespie_simple_contagion(G, H, J, dict(IC), rs, tmin=tmin, tmax=tmax, **KW)]
 
     def succ(st):
         return graph.get(st, [])
@@ -189,7 +193,7 @@ def run_scenario(task):
         T = tmin + (4.0 / r0 if r0 > 0 else 1.0)
         random.seed(seed)
         try:
-            sim = EoN.Gillespie_simple_contagion(G, H, J, dict(IC), rs, tmin=tmin, tmax=T, return_full_data=True)
+            sim = EoN.Gillespie_simple_contagion(G, H, J, dict(IC), rs, tmin=tmin, tmax=T, return_full_data=True, **KW)
             obs = observe.full_data_observation(sim, nodes)
         except Exception as ex:
             return {"error": ex}
